@@ -122,6 +122,16 @@ try:
     quick = (a.tier == 'quick') and not a.search
     layouts = LAYOUTS_3D if not quick else (LAYOUTS_3D[:3] + rng.sample(LAYOUTS_3D[3:], 7))
     nshapes = 1 if quick else 4
+    # always: a default-layout file whose traces span SEVERAL z-blocks (bs2 = 64 at 32 bit) and a z-slice-layout file
+    multi_z = [('multi-z', 32, (4, 4, -1), (rng.choice([5, 6, 9]), rng.choice([4, 7, 10]), rng.choice([65, 67, 128, 129, 131]))),
+               ('multi-z', 2, (64, 64, 4), (rng.choice([5, 66]), rng.choice([6, 65]), rng.choice([9, 13])))]
+    for tag, bpv, bs, shape in multi_z:
+        bsr = szutils.define_blockshape_3d(bpv, bs)[1]
+        p, arr = make_3d_file(rng, d, shape, bpv, bs)
+        label = f'numpy {shape} bpv={bpv} bs={bsr}'
+        R.count(f'layout {bsr} rate {bpv} ({tag})')
+        run_file(p, label, 10 if quick else 30)
+        os.remove(p)
     for bpv, bs in layouts:
         bsr = szutils.define_blockshape_3d(bpv, bs)[1]
         for shape in shapes_for(rng, bsr, 'quick')[:nshapes]:
